@@ -1,8 +1,10 @@
 (* C15 — optimal multi-input subtraction yields a physical, consistent residual (statements only).
-   PARTIAL: proved per segment for q = 1, 2 and on averaged statistics for q = 1; q = 3, 4, re-mixing invariance and
-   analytic = numeric are decided by the oracle on the implementation. *)
-From Coq Require Import Reals.
-From SK Require Import Systems.
+   The residual expression is proved, for ANY number of inputs q and any number of accumulated segments, to be the sum of
+   squares sum_k |Y_k - sum_i conj(H_i) X_ik|^2 for any coefficients H (real, >= 0), to lie in [0, S00] at any solution of the
+   code's system T H = S, to vanish for exact static combinations and not to depend on the order of the inputs.
+   PARTIAL: invariance under invertible re-mixing and analytic = numeric solver are decided on the implementation. *)
+From Coq Require Import Reals List Permutation.
+From SK Require Import Systems SystemsGen.
 Theorem C15_residual_is_square_q1 : forall H X Y, resid1 H X Y = ofR (cabs2 (csub Y (cmul (cconj H) X))).
 Proof. exact resid1_is_square. Qed.
 Theorem C15_residual_is_square_q2 : forall H1 H2 X1 X2 Y,
@@ -20,5 +22,32 @@ Theorem C15_exact_combination_zero : forall H X, resid1 H X (cmul (cconj H) X) =
 Proof. exact exact_combination_zero. Qed.
 Theorem C15_permutation_invariant : forall H1 H2 X1 X2 Y, resid2 H1 H2 X1 X2 Y = resid2 H2 H1 X2 X1 Y.
 Proof. exact permutation_invariant_2. Qed.
+(* ---- any q, spectra accumulated over any number of segments ---- *)
+Theorem C15_residual_is_sum_of_squares : forall q H segs,
+  resid_expr q H (acc_S00 segs) (acc_S segs) (acc_T segs) = ofR (sum_sq q H segs).
+Proof. exact resid_accumulated_is_sum_of_squares. Qed.
+Theorem C15_residual_physical_any_q : forall q H segs (c : R), (0 <= c)%R ->
+  let r := resid_expr q H (c * acc_S00 segs)%R (fun i => cmul (ofR c) (acc_S segs i)) (fun j i => cmul (ofR c) (acc_T segs j i)) in
+  (0 <= fst r)%R /\ snd r = 0%R.
+Proof. exact resid_mean_physical. Qed.
+Theorem C15_residual_at_solution_any_q : forall q H segs,
+  (forall i, (i < q)%nat -> csumf (fun j => cmul (acc_T segs i j) (H j)) q = acc_S segs i) ->
+  resid_expr q H (acc_S00 segs) (acc_S segs) (acc_T segs) = ofR (acc_S00 segs - sum_model_sq q H segs)%R
+  /\ (0 <= acc_S00 segs - sum_model_sq q H segs <= acc_S00 segs)%R.
+Proof. exact resid_at_solution. Qed.
+Theorem C15_exact_combination_zero_any_q : forall q H segs, (forall X Y, In (X, Y) segs -> Y = model_out q H X) ->
+  resid_expr q H (acc_S00 segs) (acc_S segs) (acc_T segs) = czero.
+Proof. exact resid_exact_combination_zero. Qed.
+Theorem C15_input_order_independent : forall q H X (order : list nat), Permutation (seq 0 q) order ->
+  csum (map (fun i => cmul (cconj (H i)) (X i)) order) = model_out q H X.
+Proof. exact model_out_order_independent. Qed.
+Theorem C15_expression_instance_q1 : forall (H X Y : C),
+  resid_expr 1 (fun _ => H) (cabs2 Y) (fun _ => S_i0 X Y) (fun _ _ => T_ij X X) = resid1 H X Y.
+Proof. exact resid_expr_q1. Qed.
+Theorem C15_expression_instance_q2 : forall (H1 H2 X1 X2 Y : C),
+  let Hf := fun i => match i with O => H1 | _ => H2 end in let Xf := fun i => match i with O => X1 | _ => X2 end in
+  resid_expr 2 Hf (cabs2 Y) (fun i => S_i0 (Xf i) Y) (fun j i => T_ij (Xf j) (Xf i)) = resid2 H1 H2 X1 X2 Y.
+Proof. exact resid_expr_q2. Qed.
 Print Assumptions C15_residual_is_square_q2.
+Print Assumptions C15_residual_at_solution_any_q.
 Print Assumptions C15_siso_bounds.
